@@ -90,3 +90,48 @@ package ast
 //@   ensures[C04] result == w.TokPos
 //@ func (*Comment).Pos
 //@   ensures[C04] points-at-its-hash: result == c.Hash
+
+// Extents of composite nodes (C04): a command starts at the earlier of its
+// expression and its first redirection and ends at the later of its expression
+// and its last redirection; a redirection ends with its delimiter (here-
+// documents) or its word and starts at its descriptor number or its operator;
+// a word spans its first to its last part; lists end with their last member.
+//@ spec func posafter(p Pos, q Pos) bool = p.line > q.line || (p.line == q.line && p.col > q.col)
+//@ func (*Cmd).End
+//@   site EXPR1 = call End#1
+//@   site REDIR1 = call ast.(*Redir).End#1
+//@   site EXPR = call End#2
+//@   site REDIR = call ast.(*Redir).End#2
+//@   ensures[C04] ends-with-the-later-of-expression-and-last-redirection: len(c.Redirs) != 0 && c.Expr != nil ==> site(EXPR) && site(REDIR) && (result == siteret(EXPR) || result == siteret(REDIR)) && !posafter(siteret(EXPR), result) && !posafter(siteret(REDIR), result)
+//@   ensures[C04] expression-only: len(c.Redirs) == 0 && c.Expr != nil ==> site(EXPR1) && result == siteret(EXPR1)
+//@   ensures[C04] redirections-only: len(c.Redirs) != 0 && c.Expr == nil ==> site(REDIR1) && result == siteret(REDIR1)
+//@ func (*Cmd).Pos
+//@   site EXPR1 = call Pos#1
+//@   site EXPR = call Pos#2
+//@   site REDIR = call ast.(*Redir).Pos#2
+//@   ensures[C04] starts-with-the-earlier-of-expression-and-first-redirection: len(c.Redirs) != 0 && c.Expr != nil ==> site(EXPR) && site(REDIR) && (result == siteret(EXPR) || result == siteret(REDIR)) && !posafter(result, siteret(EXPR)) && !posafter(result, siteret(REDIR))
+//@   ensures[C04] expression-only: len(c.Redirs) == 0 && c.Expr != nil ==> site(EXPR1) && result == siteret(EXPR1)
+//@ func (*Redir).End
+//@   site DELIM = call ast.(Word).End#1
+//@   site WORD = call ast.(Word).End#2
+//@   ensures[C04] a-here-document-ends-with-its-delimiter: (r.Op == "<<" || r.Op == "<<-") ==> site(DELIM) && result == siteret(DELIM)
+//@   ensures[C04] other-redirections-end-with-their-word: !(r.Op == "<<" || r.Op == "<<-") ==> site(WORD) && result == siteret(WORD)
+//@ func (*Redir).Pos
+//@   site NUMBER = call ast.(*Lit).Pos
+//@   ensures[C04] starts-at-the-descriptor-number-or-the-operator: (r.N != nil ==> site(NUMBER) && result == siteret(NUMBER)) && (r.N == nil ==> result == r.OpPos)
+//@ func (Word).End
+//@   site LAST = call End
+//@   ensures[C04] ends-with-its-last-part: len(w) != 0 ==> site(LAST) && result == siteret(LAST)
+//@ func (Word).Pos
+//@   site FIRST = call Pos
+//@   ensures[C04] starts-with-its-first-part: len(w) != 0 ==> site(FIRST) && result == siteret(FIRST)
+//@ func (*Pipeline).End
+//@   site LAST = call ast.(*Pipe).End
+//@   site FIRST = call ast.(*Cmd).End
+//@   ensures[C04] ends-with-its-last-command: (len(c.List) != 0 ==> site(LAST) && result == siteret(LAST)) && (len(c.List) == 0 && c.Cmd != nil ==> site(FIRST) && result == siteret(FIRST))
+//@ func (*Assign).Pos
+//@   site NAME = call ast.(*Lit).Pos
+//@   ensures[C04] starts-with-its-name: a.Name != nil ==> site(NAME) && result == siteret(NAME)
+//@ func (*Assign).End
+//@   site VALUE = call ast.(Word).End
+//@   ensures[C04] ends-with-its-value: len(a.Value) != 0 ==> site(VALUE) && result == siteret(VALUE)
